@@ -193,8 +193,12 @@ class NUTS(Sampler):
             raise ValueError('Target must have logd and gradient methods.')
 
     def reinitialize(self):
+        # max_depth is a user-set option that is stored among the state keys;
+        # keep it, otherwise resetting the state would revert it to the default
+        max_depth = self.max_depth
         # Call the parent reset method
         super().reinitialize()
+        self.max_depth = max_depth
         # Reset NUTS run diagnostic attributes
         self._reset_run_diagnostic_attributes()
 
